@@ -23,7 +23,7 @@ ASSUMPTIONS = ['str with bytes is outside the claim (statement)', 'tuples only a
 KINDS = tuple(k for k in gen.KINDS_WIDE)
 MISSING_OK = ('float16', 'float32', 'float64', 'complex64', 'complex128', 'object', 'M8[Y]', 'M8[M]', 'M8[D]', 'M8[h]', 'M8[s]', 'M8[ns]', 'm8[D]', 'm8[s]')
 
-OPS = ('s_reindex', 's_shift', 's_concat', 's_assign_el', 's_assign_arr', 's_assign_series', 's_assign_series_partial', 'f_assign_series_partial', 's_fillna', 's_fillna_series', 's_overlay', 's_from_items', 's_from_list',
+OPS = ('f_fillna_dir1', 's_reindex', 's_shift', 's_concat', 's_assign_el', 's_assign_arr', 's_assign_series', 's_assign_series_partial', 'f_assign_series_partial', 's_fillna', 's_fillna_series', 's_overlay', 's_from_items', 's_from_list',
        'f_reindex', 'f_shift', 'f_concat0', 'f_concat1', 'f_assign_el', 'f_assign_arr', 'f_assign_series', 'f_assign_bloc', 'f_fillna', 'f_fillna_sided',
        'f_row', 'f_values', 'f_iter_array1', 'f_from_records', 'f_from_records_mixed', 'f_from_dict_records', 'f_from_items', 'f_insert', 'f_overlay',
        'go_setitem', 'go_extend', 'ix_append', 'ix_fillna', 'f_relabel_shift', 'f_unset_index')
@@ -233,6 +233,34 @@ def check(case):
                 _series_cells(r['ins'], exp, op + '.ins', cells)
                 dts.append((r['x'].dtype, a.dtype, op + ' untouched column x'))
                 dts.append((r['u'].dtype, b.dtype, op + ' untouched column u'))
+        elif op == 'f_fillna_dir1':
+            # a directional fill along the rows carries an element of one column into the missing cell of its neighbour:
+            # block B (1-D) next to a two-column 2-D block of kind A whose near column has a missing cell
+            if case['ka'] not in MISSING_OK:
+                raise Discard('kind cannot hold a missing value')
+            p = i % n
+            a1 = a.copy()
+            a1[p] = {'f': np.nan, 'c': np.nan, 'M': np.datetime64('NaT'), 'm': np.timedelta64('NaT'), 'O': None}[a.dtype.kind]
+            blk = np.empty((n, 2), dtype=a.dtype)
+            blk[:, 0], blk[:, 1] = a1, a
+            forward = bool(j % 2)
+            blocks = [b, blk] if forward else [blk[:, ::-1].copy(), b]
+            f = sf.Frame(sf.TypeBlocks.from_blocks([gen.freeze(x) for x in blocks]), index=idx)
+            r = f.fillna_forward(axis=1) if forward else f.fillna_backward(axis=1)
+            rows_in = [[lb[q], arr_list(a1)[q], la[q]] if forward else [la[q], arr_list(a1)[q], lb[q]] for q in range(n)]
+            rc = [arr_list(c) for c in obs.frame_cols(r)]
+            for q in range(n):
+                seq = rows_in[q] if forward else rows_in[q][::-1]
+                out, carry, have = [], None, False
+                for x in seq:
+                    if is_missing(x):
+                        out.append(carry if have else x)
+                    else:
+                        carry, have = x, True
+                        out.append(x)
+                out = out if forward else out[::-1]
+                for col in range(3):
+                    _cmp(rc[col][q], out[col], '%s[%d,%d]' % (op, q, col), cells)
         elif op == 'f_concat0':
             f1 = sf.Frame.from_items((('x', a),), index=['a%d' % q for q in idx])
             f2 = sf.Frame.from_items((('x', b),), index=['b%d' % q for q in idx])
